@@ -70,7 +70,7 @@ def check(ctx):
             # ring events of the sampled cases against the specification
             cfgr = ctx.path("RingIdx.cfg")
             write_cfg(cfgr, invariants=["Safe"], postcondition="Accepted")
-            ok, info, tres = trace_validate(ctx, "RingIdx", cfgr, trace, "tv_ring_hostile", timeout=3000, heap="-Xmx8g")
+            ok, info, tres = trace_validate_chunked(ctx, "RingIdx", cfgr, trace, "tv_ring_hostile", lambda r: r.get("op") == "reset", timeout=3000, heap="-Xmx8g")
             ctx.traces += rj["ring_traces"]
             if ok:
                 ctx.cov["ring_events_under_hostile_input"] = {"events_accepted": info["events"], "decoder_runs_traced": rj["ring_traces"]}
